@@ -74,9 +74,9 @@ type caseT struct {
 
 func main() {
 	r := vlib.Start("C11", "exploration", 3*time.Minute, 15*time.Minute)
-	N, S, U := 130, 10, 8
+	N, S, U := 530, 10, 8
 	if r.Thorough() {
-		N, S, U = 520, 13, 10
+		N, S, U = 1100, 13, 10
 	}
 	var evals, nontrivial int64
 	viol := func(key, what string, c caseT) { r.Violation(key, what, c) }
@@ -286,6 +286,20 @@ func main() {
 				}
 				if p := vlib.Catch(func() { err = t2.Update(proof.Idxs, nd) }); p != "" || err != nil || !bytes.Equal(t2.Root(), wantRoot) {
 					viol(fmt.Sprintf("update-tree:n=%d", n), fmt.Sprintf("Update (n=%d subset=%b) does not yield the root of the modified list: %v %s", n, mask, err, p), c)
+				} else {
+					// the updated tree reloaded from storage is the updated tree, and it continues identically
+					var re *rmt.RegularMerkleTree
+					var rerr error
+					if p := vlib.Catch(func() { re, rerr = rmt.NewRegularMerkleTreeWithPastData(cdb.clone()) }); p != "" || rerr != nil {
+						viol("reload-after-update-fails", fmt.Sprintf("reloading the tree after Update (n=%d subset=%b) fails: %v %s", n, mask, rerr, p), c)
+					} else if !bytes.Equal(re.Root(), wantRoot) || re.Size() != uint64(n) {
+						viol("reload-after-update-differs", fmt.Sprintf("tree reloaded after Update (n=%d subset=%b) does not have the root of the modified list", n, mask), c)
+					} else {
+						extra := []byte("appended-after-update")
+						if p := vlib.Catch(func() { rerr = re.Append(extra) }); p != "" || rerr != nil || !bytes.Equal(re.Root(), ref.RMTRoot(append(append([][]byte{}, mod...), extra))) {
+							viol("reload-after-update-continue", fmt.Sprintf("append on the tree reloaded after Update (n=%d subset=%b) gives a wrong root: %v %s", n, mask, rerr, p), c)
+						}
+					}
 				}
 			}
 		}
